@@ -205,6 +205,10 @@ func runC08(c *Ctx) {
 	c.rule("R5", "a connection whose read or write failed is marked dead on every path (close-with-error), for every connection kind", 5)
 	checkIOErrorCloses(c)
 
+	// ---------------------------------------------------------------- R6
+	c.rule("R6", "what a retry transmits is still the query: pooled buffers of the transports are not used, re-sent or released again after their release (also when a callee released them)", 6)
+	checkBufferTypestate(c, fns)
+
 	// ---------------------------------------------------------------- R4
 	c.rule("R4", "dead connections leave the pools when detected / when they close", 4)
 	if g := c.fn(relTransport, "PipelineTransport", "getReservedExchanger"); g != nil {
